@@ -341,8 +341,8 @@ struct Engine : public vf::Engine {
                 else if (x < 84) { o.kind = H_BADFREE; o.a = (int64_t)w.below(5); o.b = (int64_t)w.below(3); o.c = (int64_t)w.below(600); o.phase = (int)w.below(3) == 2 ? 2 : 0; }
                 else if (x < 87) { o.kind = H_TYPECHECK; o.a = (int64_t)w.below(2); }
                 else if (x < 88) o.kind = H_STASH;
-                else if (x < 94) { o.kind = H_WRAP; o.a = (int64_t)w.below(3); static const int wk[] = { 0, 0, 1, 2, 3, 5, 5 }; o.b = wk[w.below(7)]; }
-                else if (x < 97) { o.kind = H_REALLOC; o.a = (int64_t)w.below((uint64_t)nSlots); o.c = w.small(0, 100); if (w.chance(1, 8)) o.c = (int64_t)(SIZE_MAX - (size_t)w.below(200)); }      // some refused (overflowing) requests: the block must stay what it was
+                else if (x < 94) { o.kind = H_WRAP; o.a = (int64_t)w.below(3); static const int wk[] = { 0, 0, 1, 2, 3, 5, 5, 6, 6 }; o.b = wk[w.below(9)]; }
+                else if (x < 97) { o.kind = H_REALLOC; o.a = (int64_t)w.below((uint64_t)nSlots); o.c = w.small(0, 100); if (w.chance(1, 8)) o.c = (int64_t)(SIZE_MAX - (size_t)w.below(200)); else if (w.chance(1, 5)) o.c = -1; }      // some refused (overflowing) requests: the block must stay what it was; some requests for the size the block already has
                 else { o.kind = H_QUERY; o.a = (int64_t)w.below(4); }
             } else if (dia) {
                 if (x < 30) { o.kind = H_BADFREE; o.a = w.range(1, 4); o.b = (int64_t)w.below(3); o.c = (int64_t)w.below(600); o.s = w.chance(2, 3) ? longFile : Str("s.c"); }
@@ -376,6 +376,7 @@ struct Engine : public vf::Engine {
         int period; unsigned char stage; unsigned seq; bool typecheck;
         TestMemoryAllocator* famAllocator[3];     // allocators used on the direct route (and installed as current on the global route)
         Vec<SimAllocator*> wrappers; FailableMemoryAllocator* failable;
+        Vec<AccountingTestMemoryAllocator*> acct; Vec<TestMemoryAllocator*> acctBase; MemoryAccountant* accountant;     // real accounting decorators (may be nested) and, per decorator, the family allocator the model says is underneath
         Vec<char*> stale;
         // C15 model
         struct Desig { bool byLoc; int n; Str file; size_t line; int seen; };
@@ -388,6 +389,9 @@ struct Engine : public vf::Engine {
     };
 
     static const char* actualName(TestMemoryAllocator* a) { return a->actualAllocator()->name(); }
+    // which allocator really serves a (possibly decorated) allocator, by the model: the library's own accounting decorators are looked up in the
+    // simulator's table (what the history installed), not asked
+    static TestMemoryAllocator* modelActual(World& W, TestMemoryAllocator* a) { for (size_t i = 0; i < W.acct.size(); i++) if (W.acct[i] == a) return W.acctBase[i]; return a->actualAllocator(); }
 
     void fail(World& W, const char* prop, const char* oracle, const Json& sig, const Str& detail) { W.r->fail(prop, oracle, sig, detail); }
     void fail(World& W, const char* prop, const char* oracle, const Str& detail) { W.r->fail(prop, oracle, Json::O(), detail); }
@@ -422,7 +426,7 @@ struct Engine : public vf::Engine {
     }
 
     int expectedCategory(World& W, MBlock& b, TestMemoryAllocator* freeing) {      // -1 none, 1 mismatch, 2 corruption
-        TestMemoryAllocator* aa = b.allocator->actualAllocator(); TestMemoryAllocator* fa = freeing->actualAllocator();
+        TestMemoryAllocator* aa = modelActual(W, b.allocator); TestMemoryAllocator* fa = modelActual(W, freeing);
         bool match = aa == fa || !W.typecheck || strcmp(fa->name(), aa->name()) == 0;
         if (!match) return 1;
         if (b.guardDirty && GUARD) return 2;
@@ -522,6 +526,7 @@ struct Engine : public vf::Engine {
         for (int i = 0; i < N_SLOTS; i++) { W.slots[i].live = false; W.slots[i].p = 0; W.slots[i].tracked = false; }
         W.period = mem_leak_period_disabled; W.stage = 0; W.seq = 1; W.typecheck = true; W.failable = 0; W.failIndex = 0; W.oomCountdown = -1; W.oomAll = false;
         W.failableFor[0] = W.failableFor[1] = W.failableFor[2] = false; W.diaCleanReport = true; W.diaMisuse = 0; W.lastReportValid = true;
+        W.accountant = 0;
         W.famAllocator[0] = defaultNewAllocator(); W.famAllocator[1] = defaultNewArrayAllocator(); W.famAllocator[2] = defaultMallocAllocator();
         GlobalMemoryAllocatorStash stash; stash.save();
         CTX.bufBase = const_cast<char*>(det.report(mem_leak_period_checking));   // learn the buffer's address, then clear it
@@ -585,7 +590,7 @@ struct Engine : public vf::Engine {
                 for (size_t k = 0; k < W.wrappers.size(); k++) if (W.wrappers[k] == alloc && W.wrappers[k]->failNodeIn == 0 && sepNode && !expectNull) { nodeFails = W.wrappers[k]; userBalance = nodeFails->allocs - nodeFails->frees; }
                 if (platformFaultArmed) { lenient = true; }
                 bool tooBig = overflowingCalloc || size > ((size_t)48 << 20) || size > SIZE_MAX - overhead;
-                HEAP.userRequest = overflowingCalloc ? 0 : size; HEAP.armed = !overflowingCalloc; HEAP.limitHit = false;
+                HEAP.userRequest = overflowingCalloc ? 0 : size; HEAP.armed = !overflowingCalloc && W.acct.empty(); HEAP.limitHit = false;      // (an accounting decorator makes platform requests of its own before the user's)
                 char* p = 0; bool threw = false, testFailure = false;
                 try {
                     if (o.kind == H_CALLOC) p = (char*)cpputest_calloc_location((size_t)o.b, (size_t)o.c, file, line);
@@ -645,7 +650,7 @@ struct Engine : public vf::Engine {
                     else cpputest_free_location(p, file, line);
                 } else det.deallocMemory(fa, p, file, line, S.route == 1);
                 expectReports(W, oi, on, cat);
-                if (S.route == 2 && S.tracked && S.size > 0 && cat == -1 && fa->actualAllocator() == S.allocator->actualAllocator()) { probe("free_seam_observed");
+                if (S.route == 2 && S.tracked && S.size > 0 && cat == -1 && modelActual(W, fa) == modelActual(W, S.allocator)) { probe("free_seam_observed");
                     if (!HEAP.watchSeen) fail(W, "C06", "poison_before_release", sg("what", "block never reached the free seam"), sfmt("op %zu", oi));
                     else if (HEAP.watchLeft) fail(W, "C06", "poison_before_release", sg("what", "user bytes not overwritten"), sfmt("op %zu: %zu of %zu user bytes still held the caller's data when the block was returned (family %s)", oi, HEAP.watchLeft, S.size, famAlloc[fam])); }
                 HEAP.watchFree = 0;
@@ -669,7 +674,7 @@ struct Engine : public vf::Engine {
                 int cat = S.tracked ? expectedCategory(W, S, fa) : 0;
                 SimAllocator* nodeFails = 0;
                 for (size_t k = 0; k < W.wrappers.size(); k++) if (W.wrappers[k] == fa && W.wrappers[k]->failNodeIn == 0 && (GUARD == 0 || S.route != 0) && !tooBig && cat == -1) nodeFails = W.wrappers[k];
-                HEAP.userRequest = size; HEAP.armed = true; HEAP.armedReallocOnly = true; HEAP.limitHit = false;
+                HEAP.userRequest = size; HEAP.armed = W.acct.empty(); HEAP.armedReallocOnly = true; HEAP.limitHit = false;
                 char* np = 0; size_t keep = S.size < size ? S.size : size;
                 if (S.route == 2) np = (char*)cpputest_realloc_location(S.p, size, file, line);
                 else np = det.reallocMemory(fa, S.p, size, file, line, S.route == 1);
@@ -812,6 +817,14 @@ struct Engine : public vf::Engine {
                     if (o.b == 3 || o.b == 5) sa->forwardTo = base;
                     W.wrappers.push_back(sa); use = sa;
                 } else if (o.b == 4) { use = &failable; W.failable = &failable; W.failableFor[fam] = true; }
+                else if (o.b == 6) {       // the library's own accounting decorator on top of whatever serves the family now (nests when applied again)
+                    if (HEAP.failMallocIn >= 0 || W.acct.size() >= 6) break;
+                    if (!W.accountant) W.accountant = new (::malloc(sizeof(MemoryAccountant))) MemoryAccountant();
+                    TestMemoryAllocator* under = W.famAllocator[fam];
+                    AccountingTestMemoryAllocator* aw = new (::malloc(sizeof(AccountingTestMemoryAllocator))) AccountingTestMemoryAllocator(*W.accountant, under);
+                    W.acctBase.push_back(modelActual(W, under)); W.acct.push_back(aw); use = aw; fired("accounting_decorator_installed");
+                    if (W.acct.size() >= 2) probe("accounting_decorators_nested");
+                }
                 W.famAllocator[fam] = use;
                 if (fam == 0) setCurrentNewAllocator(use); else if (fam == 1) setCurrentNewArrayAllocator(use); else setCurrentMallocAllocator(use);
                 break;
@@ -880,6 +893,8 @@ struct Engine : public vf::Engine {
         failable.clearFailedAllocs();
         stash.restore();
         setCurrentNewAllocatorToDefault(); setCurrentNewArrayAllocatorToDefault(); setCurrentMallocAllocatorToDefault();
+        for (size_t i = W.acct.size(); i-- > 0;) { W.acct[i]->~AccountingTestMemoryAllocator(); ::free(W.acct[i]); }
+        if (W.accountant) { W.accountant->clear(); W.accountant->~MemoryAccountant(); ::free(W.accountant); }
         for (size_t i = 0; i < W.wrappers.size(); i++) { W.wrappers[i]->~SimAllocator(); ::free(W.wrappers[i]); }
         for (size_t i = 0; i < W.untrackedHeap.size(); i++) ::free(W.untrackedHeap[i]);
         MemoryLeakWarningPlugin::setGlobalDetector(oldDet, oldRep);
